@@ -435,12 +435,14 @@ func (db *DB) Query(ctx context.Context, result interface{}, filter Filter, opti
 // 2. Some rare operations are infrequent and its better to have no index and instead perform full table scans
 //    when that query is run.
 func (db *DB) FullScanQuery(ctx context.Context, result interface{}, filter Filter, options *SelectOptions) error {
-	if options == nil {
-		options = &SelectOptions{}
+	// Leave the caller's options as they are.
+	fullScan := SelectOptions{}
+	if options != nil {
+		fullScan = *options
 	}
-	options.AllowNoIndex = true
+	fullScan.AllowNoIndex = true
 
-	return db.Query(ctx, result, filter, options)
+	return db.Query(ctx, result, filter, &fullScan)
 }
 
 // QueryRow fetches a single row from the database
